@@ -130,6 +130,9 @@ func specPlain6(p *packets.FrameParser) bool {
 //@ ensures[C10.entry.closed]  forallint(h, !old(selb(isOpen, h)) ==> !selb(isOpen, h))
 //@ ensures[C10.entry.others]  forallint(h, old(selb(isOpen, h)) ==> selb(isOpen, h) && sel(closeN, h) == old(sel(closeN, h)))
 //@ before TracerouteParallel assert[C10.udp.open] selb(isOpen, ref(driver.source)) && selb(isOpen, ref(driver.sink))
+// C11: the UDP socket that reserves the source port stays open while the engine runs (concurrent UDP runs to one target
+// differ in nothing but that port)
+//@ before TracerouteParallel assert[C11.udp.port.held] !handle.MustClosePort ==> selb(isOpen, ref(conn))
 // C12 (composition step): the UDP matcher only ever accepts ICMP errors (sound.kind), so the ICMP filter hides nothing
 //@ before Source.SetPacketFilter assert[C12.udp.filter] callarg0.FilterType == packets.FilterTypeICMP
 //@ modifies *, ghost isOpen, ghost closeN, ghost clock, ghost sendN, ghost sendLog, ghost sendClock
